@@ -360,6 +360,7 @@ func runC09(c *Ctx) {
 	c.rule("A20", "a copy of n bytes transfers at most n for every n, negative ones included: safeio.CopyNWithContext copies through io.CopyN with the count given on every path", 1)
 	c.copyNBounded("A20")
 	c.c09DeferredCleanupKeepsTheError()
+	c.c09ContextualAdaptersConvert()
 	c.c09NoDetourAroundTheContext()
 	// A23: "end-of-stream conditions being reported as the 'EOF' kind" — also when the reader wrapped them
 	c.rule("A23", "no converter of the module compares an error with a sentinel by identity: an end-of-stream that reaches ConvertIOError wrapped is still reported as the 'EOF' kind (the obligation C11/D16)", 5)
@@ -1884,5 +1885,125 @@ func (c *Ctx) c09NoDetourAroundTheContext() {
 	}
 	if n == 0 {
 		c.ok("A22", "module/no-detour-around-the-context", "-", "no function that holds a context calls the context-free form of an operation that has a …WithContext form")
+	}
+}
+
+// c09ContextualAdaptersConvert (A24): "every context-accepting operation of the library — these helpers … — fails with the
+// 'cancelled' or 'timeout' kind". The readers and writers safeio hands out are built on the third-party contextio package,
+// whose Read/Write answer the raw context.Canceled / context.DeadlineExceeded: commonerrors.Any(err, ErrCancelled) does not
+// recognise those. What a contextio constructor returns is therefore never handed out as it is: it is kept in a field of a
+// type of package safeio, and the methods of that type that return an error pass it through one of the package's converters.
+func (c *Ctx) c09ContextualAdaptersConvert() {
+	c.rule("A24", "what a contextio constructor returns is never handed out as it is: safeio keeps it in a field of one of its own types whose error-returning methods pass the error through ConvertIOError / ConvertContextError (directly or through safeReadFrom / safeCopy)", 2)
+	converts := func(cl *ssa.Call) bool {
+		n := calleeFull(&cl.Call)
+		for _, s := range []string{"safeio.ConvertIOError", "commonerrors.ConvertContextError", "safeio.safeReadFrom", "safeio.safeCopy"} {
+			if strings.HasSuffix(n, s) {
+				return true
+			}
+		}
+		return false
+	}
+	for _, f := range c.srcFuncs("safeio") {
+		if f.Blocks == nil {
+			continue
+		}
+		allInstrs(f, func(in ssa.Instruction) {
+			cl, ok := in.(*ssa.Call)
+			if !ok || !strings.Contains(calleeFull(&cl.Call), "dolmen-go/contextio.New") {
+				return
+			}
+			c.FuncsSeen[fname(f)] = true
+			key := fname(f) + "/" + short(calleeFull(&cl.Call))
+			// where the value goes: into a field of a safeio type (through interface conversions), and nowhere else
+			var holder *types.Named
+			raw := ""
+			var follow func(v ssa.Value, depth int)
+			follow = func(v ssa.Value, depth int) {
+				if depth > 4 || v.Referrers() == nil {
+					return
+				}
+				for _, u := range *v.Referrers() {
+					switch x := u.(type) {
+					case *ssa.Store:
+						if fa, ok := x.Addr.(*ssa.FieldAddr); ok && x.Val == v {
+							if pt, ok := fa.X.Type().Underlying().(*types.Pointer); ok {
+								if nm, ok := pt.Elem().(*types.Named); ok && nm.Obj().Pkg() != nil && strings.HasSuffix(nm.Obj().Pkg().Path(), "/safeio") {
+									holder = nm
+									continue
+								}
+							}
+						}
+						raw = c.ipos(x)
+					case *ssa.MakeInterface:
+						follow(x, depth+1)
+					case *ssa.ChangeInterface:
+						follow(x, depth+1)
+					case *ssa.Return:
+						raw = c.ipos(x)
+					case *ssa.Call:
+						raw = c.ipos(x)
+					case *ssa.DebugRef:
+					default:
+						raw = c.ipos(u)
+					}
+				}
+			}
+			follow(cl, 0)
+			switch {
+			case raw != "":
+				c.violate("A24", key, raw, "the reader / writer of the third-party contextio package is handed out (or used) as it is: once the context has ended its Read / Write answers the raw context.Canceled / context.DeadlineExceeded, which commonerrors.Any(err, ErrCancelled, ErrTimeout) does not recognise — the caller of the contextual reader cannot tell a cancellation from an I/O failure")
+				return
+			case holder == nil:
+				c.undecided("A24", key, c.ipos(cl), "where the value of the contextio constructor goes was not recognised")
+				return
+			}
+			// the holder's methods that return an error convert it
+			bad := ""
+			n := 0
+			for _, g := range c.srcFuncs("safeio") {
+				if g.Signature.Recv() == nil || g.Blocks == nil {
+					continue
+				}
+				rt := g.Signature.Recv().Type()
+				if pt, ok := rt.(*types.Pointer); ok {
+					rt = pt.Elem()
+				}
+				if !types.Identical(rt, holder) {
+					continue
+				}
+				res := g.Signature.Results()
+				if res.Len() == 0 || !isErrorType(res.At(res.Len()-1).Type()) {
+					continue
+				}
+				n++
+				allInstrs(g, func(j ssa.Instruction) {
+					r, ok := j.(*ssa.Return)
+					if !ok {
+						return
+					}
+					for _, l := range sources(r.Results[len(r.Results)-1], deriveOpts{}) {
+						if isNilConst(l) {
+							continue
+						}
+						if ex, ok := l.(*ssa.Extract); ok {
+							l = ex.Tuple
+						}
+						if k, ok := l.(*ssa.Call); ok && converts(k) {
+							continue
+						}
+						bad = c.ipos(r)
+					}
+				})
+			}
+			switch {
+			case n == 0:
+				c.violate("A24", key, c.ipos(cl), "the type "+holder.Obj().Name()+" that keeps the contextio value has no method returning an error: nothing converts what the third-party reader / writer reports")
+			case bad != "":
+				c.violate("A24", key, bad, "a method of "+holder.Obj().Name()+" returns the error of the third-party reader / writer without passing it through the package's converters: the end of the context is reported as the raw context.Canceled / context.DeadlineExceeded, which is neither the 'cancelled' nor the 'timeout' kind")
+			default:
+				c.ok("A24", key, c.ipos(cl), "kept in "+holder.Obj().Name()+", whose "+strconv.Itoa(n)+" error-returning method(s) convert the error")
+			}
+		})
 	}
 }
